@@ -447,7 +447,7 @@ func c18(c *Ctx) (*report.Result, error) {
 
 	// ---- O18.4 / O18.5
 	if f := resolve(c, res, "O18.4", anchor{"proto/compat", "", "repairInvalidUTF8InFailure"}); f != nil {
-		checkFailureChainRepair(c, res, f)
+		checkFailureChainRepair(c, res, f, "O18.4")
 	}
 	if f := resolve(c, res, "O18.5", anchor{"proto/compat", "", "convertAndRepairInvalidUTF8"}); f != nil {
 		checkConvertAndRepairIdentity(c, res, f)
@@ -464,8 +464,7 @@ func c18(c *Ctx) (*report.Result, error) {
 	return res, nil
 }
 
-func checkFailureChainRepair(c *Ctx, res *report.Result, f *ssa.Function) {
-	rule := "O18.4"
+func checkFailureChainRepair(c *Ctx, res *report.Result, f *ssa.Function, rule string) {
 	// the carried variable: a phi of the parameter and a GetCause()/Cause of itself
 	var carried *ssa.Phi
 	for _, b := range f.Blocks {
@@ -527,6 +526,33 @@ func checkFailureChainRepair(c *Ctx, res *report.Result, f *ssa.Function) {
 			} else {
 				ok2 = false
 			}
+			// the rewrite happens exactly when the message is invalid: the store is guarded by an exact
+			// validity test of this link's message (utf8.ValidString false, or repaired != original)
+			exact := false
+			guardTxt := ""
+			for _, g := range flow.NormGuards(flow.Guards(st.Block())) {
+				guardTxt += g.String() + "; "
+				switch x := g.Cond.(type) {
+				case *ssa.Call:
+					if (flow.IsCallTo(&x.Call, "unicode/utf8", "", "ValidString") || flow.IsCallTo(&x.Call, "unicode/utf8", "", "Valid")) && !g.Side {
+						if messageOf(x.Call.Args[0], carried) {
+							exact = true
+						}
+					}
+				case *ssa.BinOp:
+					if x.Op == token.NEQ && g.Side && types.Identical(x.X.Type(), types.Typ[types.String]) {
+						a, b := x.X, x.Y
+						isRep := func(v ssa.Value) bool {
+							call, ok := v.(*ssa.Call)
+							return ok && flow.IsCallTo(&call.Call, "strings", "", "ToValidUTF8") && messageOf(call.Call.Args[0], carried)
+						}
+						if (isRep(a) && messageOf(b, carried)) || (isRep(b) && messageOf(a, carried)) {
+							exact = true
+						}
+					}
+				}
+			}
+			res.Check(exact, rule, "repairInvalidUTF8InFailure: a link is rewritten exactly when its message is not valid UTF-8", instrPos(c.Prog, st), "guard: !utf8.ValidString(message)", "the rewrite (and the 'changed' verdict) is guarded by a test that is not an exact validity test of the message ("+guardTxt+"): some invalid messages are left unrepaired, or valid ones are touched")
 			// inside the loop: the store's block is dominated by the loop header and can reach it
 			inLoop := carried.Block().Dominates(st.Block()) && flow.ReachBlock(st.Block(), carried.Block(), nil)
 			res.Check(ok2 && inLoop, rule, "repairInvalidUTF8InFailure: Message = ToValidUTF8(Message, U+FFFD) for the current link", instrPos(c.Prog, st), "ok", "the Message rewrite is not strings.ToValidUTF8 of the same link's Message with U+FFFD inside the loop")
@@ -613,4 +639,18 @@ func checkConvertAndRepairIdentity(c *Ctx, res *report.Result, f *ssa.Function) 
 		}
 	}
 	res.Check(ok2, rule, "convertAndRepairInvalidUTF8: target is re-decoded from the repaired bytes", fnPos(c.Prog, f), "v.Unmarshal(repaired)", "the caller's message is not re-decoded from the repaired encoding")
+}
+
+// messageOf: v reads the Message of the failure link `link` (field load or GetMessage()).
+func messageOf(v ssa.Value, link ssa.Value) bool {
+	if src, fld, ok := flow.FieldLoadOf(v); ok && fld == "Message" && src == link {
+		return true
+	}
+	if call, ok := v.(*ssa.Call); ok && isMethodNamed(&call.Call, "GetMessage") && len(call.Call.Args) == 1 && call.Call.Args[0] == link {
+		return true
+	}
+	if cv, ok := v.(*ssa.Convert); ok {
+		return messageOf(cv.X, link)
+	}
+	return false
 }
